@@ -18,7 +18,8 @@ LAYOUTS_X = {
     "flat4": ({"a.txt": b"A", "b.txt": b"B", "c.txt": b"C", "e.txt": b"E", "d": DIR, "d/w.bin": b"W", "d/x.bin": b"X",
                "d/y.bin": b"Y", "d/z.bin": b"Z"}, []),
 }
-ANCESTORS = ["plain", "ascmhl", "x.tmp", ".DS_Store", "with space"]
+# (names that are special to glob / regular expressions / format strings must be as harmless as any other)
+ANCESTORS = ["plain", "ascmhl", "x.tmp", ".DS_Store", "with space", "Shoot [Day 1]", "what? *(copy) {0} %s", "e\u0301 \u00fc"]
 INVOCATIONS = ["absolute", "trailing-slash", "relative-from-parent", "dot-from-inside"]
 
 
@@ -76,7 +77,8 @@ def eval_case(ctx, case):
     layout = case["layout_def"]
     v = []
     anc = case["ancestor"]
-    sig = {"ancestor": "plain" if anc == "plain" else ("space" if anc == "with space" else "matches-ignore-pattern"),
+    sig = {"ancestor": "plain" if anc == "plain" else ("space" if anc == "with space" else "special-characters" if anc not in
+                       ("ascmhl", "x.tmp", ".DS_Store") else "matches-ignore-pattern"),
            "invocation": case["invocation"], "permuted": bool(case.get("order")), "nested": bool(case["layout_def"][1])}
     got, exits, post = seal(ctx, layout, case["ancestor"], case["invocation"], case.get("order"))
     base = case["baseline"]
@@ -190,7 +192,7 @@ def main(tier, seed):
     cov = {"states": len(cases), "transitions": ncmd, "traces_validated_against_impl": ncmd, "exhaustive": True,
            "rule": "layouts {flat, nested siblings A / AB (thorough: + three nested roots incl. a chain, wider flat)} sealed with the "
                    "same names, contents, mtimes, virtual clock and -i *.tmp at <scratch>/<ancestor>/root for ancestor in {plain, "
-                   "ascmhl, x.tmp (matches the pattern), .DS_Store, 'with space'} x invocation {absolute, trailing slash, relative "
+                   "ascmhl, x.tmp (matches the pattern), .DS_Store, 'with space', 'Shoot [Day 1]', 'what? *(copy) {0} %s', a decomposed name} x invocation {absolute, trailing slash, relative "
                    "from the parent, '.' from inside}; and under EVERY combination of permutations of the directory listings "
                    "(os.listdir / os.scandir seam) of all directories with <=4 entries, plus a fixed set of 40 (thorough 200) listings that also "
                    "shuffle the entries of every ascmhl folder (enumerated from a seeded generator: an addition, not the deciding part); "
